@@ -1,6 +1,6 @@
 SPEC = dict(
     props_file="C10",
-    legs=[dict(family="tdigest", oracles=["prop_ok", "tie_ok"], profiles=["debug", "release"],
+    legs=[dict(family="tdigest", oracles=["prop_ok"], tie_oracles=["tie_ok"], profiles=["debug", "release"],
                mask=[0, 1, 7, 8, 9, 10, 14, 15, 17], n_quick=110, n_thorough=260)],
     level_text="Theorems (Props/C10.v) over a branch-by-branch transcription of TDigestView::rank / quantile / cdf / pmf / "
                "check_split_points (tdigest/sketch.rs, REPAIRED code) in exact rational arithmetic, for EVERY well-formed view "
